@@ -121,7 +121,7 @@ pub fn c20(t: &Trace, r: &mut Report) {
                     r.samples.push(format!("{} {} -> {}", what, x, got));
                 }
             }
-            "notenew" => {
+            "notenew" | "notefrom" => {
                 r.eval();
                 let n = num(op[1]);
                 r.nt(h2(n, 5));
